@@ -176,6 +176,10 @@ class AbstractEval:
             return self.call(e, env)
         if isinstance(e, (ast.Tuple, ast.List)):
             return tuple(self.ev(x, env) for x in e.elts)
+        if isinstance(e, ast.Dict):
+            return App("dict", tuple((self.ev(k, env) if k is not None else "**", self.ev(v, env)) for k, v in zip(e.keys, e.values)))
+        if isinstance(e, ast.Set):
+            return App("set", tuple(self.ev(x, env) for x in e.elts))
         if isinstance(e, ast.JoinedStr):
             return App("fstring", tuple(self.ev(v.value, env) for v in e.values if isinstance(v, ast.FormattedValue)))
         if isinstance(e, ast.Lambda):
@@ -327,6 +331,8 @@ class AbstractEval:
                 self.assign(tt, vv, env)
         elif isinstance(t, ast.Attribute):
             self.calls.append(App("setattr", (self.ev(t.value, env), t.attr, v)))
+        elif isinstance(t, ast.Subscript):
+            self.calls.append(App("setitem", (self.ev(t.value, env), self.ev(t.slice, env), v)))
         else:
             raise AnalysisError(f"dtable: unsupported assignment target {ast.unparse(t)}")
 
